@@ -177,10 +177,67 @@ def _cfg_nodes(g: CFG, node: ast.AST, copies=True) -> List[Node]:
 
 
 def run(ctx) -> None:
+    """The evaluated model (rules/dlmodel.py) decides; the structural reading below it explains. A structural report
+    is issued only when the evaluation finds the list incoherent as well: the structural rules know the spellings of
+    today's code, the evaluation knows what the code does."""
+    from . import dlmodel
+
     prog = ctx.prog
     cls = prog.cls("DictList")
     if "list" not in prog.ext_bases(cls):
         raise AnalysisError("DictList no longer derives from list: the C15 rules do not apply as written")
+    ctx.rule("C15.model", "finite domain, inductive: every DictList operation evaluated from every coherent state of the small scope agrees with a plain list under the uniqueness rule, stays coherent, and is atomic when it raises", floor=20)
+    model_error = None
+    rep = None
+    try:
+        rep = dlmodel.run_model(prog)
+    except AnalysisError as exc:
+        model_error = str(exc)
+    if rep is not None:
+        flagged = set()
+        for method, msg in rep.problems:
+            fn = cls.methods[method][0] if method in cls.methods else None
+            flagged.add(method)
+            if fn is not None:
+                ctx.bad("C15.model", fn, fn.node, msg)
+            else:
+                ctx.bad("C15.model", None, f"DictList.{method}", msg, file=cls.unit.rel)
+        for method, n in sorted(rep.ops_seen.items()):
+            if method not in flagged and method in cls.methods:
+                ctx.ok("C15.model", cls.methods[method][0], f"model/{method}", f"{n} evaluated cases of {method} agree with a plain list under the uniqueness rule, stay coherent, are atomic on failure")
+        for method in ("get_by_id", "index", "__contains__", "has_id", "__init__", "__reduce__", "__setstate__", "_replace_on_id", "_extend_nocheck", "get_by_any", "query"):
+            if method not in flagged and method in cls.methods:
+                ctx.ok("C15.model", cls.methods[method][0], f"model/{method}", f"{method} evaluated on every coherent state of the scope", nontrivial=False)
+        ctx.note(f"C15.model: {rep.cases} cases evaluated from {rep.states} start states")
+    held: List[Tuple[tuple, dict]] = []
+    structural_error = None
+    ctx.bad = lambda *a, **k: held.append((a, k))  # type: ignore[method-assign]
+    try:
+        _run_structural(ctx)
+    except AnalysisError as exc:
+        structural_error = str(exc)
+    finally:
+        del ctx.bad
+    if rep is None:
+        # the evaluation is not available: the structural rules decide alone, and the gap is an analysis error
+        for a, k in held:
+            ctx.bad(*a, **k)
+        ctx.defer(model_error or "C15.model could not be evaluated")
+        if structural_error:
+            raise AnalysisError(structural_error)
+    elif rep.problems:
+        for a, k in held:
+            ctx.bad(*a, **k)
+    else:
+        for a, k in held:
+            ctx.note(f"structural reading not confirmed by the evaluated model (no report): {a[0]} {a[3] if len(a) > 3 else ''}"[:300])
+        if structural_error:
+            ctx.note(f"structural reading skipped ({structural_error}); the evaluated model decides")
+
+
+def _run_structural(ctx) -> None:
+    prog = ctx.prog
+    cls = prog.cls("DictList")
     ctx.rule("C15.override", "T4: every in-place list operation named in the property is overridden by DictList", floor=len(REQUIRED_OVERRIDES))
     ctx.rule("C15.lockstep", "T1: each list primitive is paired on every normal path with the _dict maintenance of its kind", floor=10)
     ctx.rule("C15.shift", "T5: position-shift loops compare with the canonical position using the operator and +/-1 of their primitive", floor=3)
